@@ -60,7 +60,7 @@ func init() {
 func drawLocCase(rt *rapid.T, rec *core.Recorder, env *gen.Env) *locCase {
 	lc := &locCase{}
 	var p *core.Program
-	if rapid.IntRange(0, 9).Draw(rt, "corpusOrKernels") < 7 {
+	if rapid.IntRange(0, 9).Draw(rt, "corpusOrKernels") < 5 {
 		progs := env.CorpusPrograms()
 		ce := progs[rapid.IntRange(0, len(progs)-1).Draw(rt, "corpusPkg")]
 		p = ce.Program()
